@@ -454,6 +454,594 @@ def plant(rng, w, kind):
     return True
 
 
+# ---------------------------------------------------------------------------------------------------------------
+# SHAPES: classes of texts INSIDE the supported fragment that the random grammar walk of pddlgen.py does not reach
+# (or reaches too rarely to rely on).  A shaper (rng, w, a, variant) -> hints | None changes action `a` of world `w`;
+# the world stays in-fragment, so the judge demands: accepted, vocabulary and behaviour equal to the independent
+# reading.  `hints` tell the driver how to choose probe states that SEPARATE what the shape is about:
+#   {"fluents": {function name: [values]}, "facts": [predicate names], "focus": action name, "tag": str}
+# State 0 of a hinted world has no fact of the named predicates and the first listed value for every fluent of the
+# named functions, state 1 has every such fact (same fluent values), further states draw both at random.
+AUX_PREDS = [("pz", []), ("pu", [("?a0", "object")]), ("pw", []), ("pv", [("?a0", "object")])]
+AUX_FUNCS = [("fz", []), ("fu", [("?a0", "object")])]
+# numerals that agree when printed with 2 decimals (the library's DEFAULT_DIGITS) and differ by far more than EPSILON
+FAR_PAIRS = [("0.001", "0.004"), ("0.004", "0.001"), ("0.501", "0.504"), ("1.004", "0.996"), ("2.3312", "2.3349"),
+             ("-0.004", "-0.001"), ("10.001", "10.004"), ("0.12", "0.1249"), ("3.0004", "3.004")]
+# control: numerals that already differ in the first two decimals
+NEAR_PAIRS = [("0.01", "0.04"), ("0.5", "0.25"), ("1", "1.01"), ("2", "3")]
+LONG_NUMERALS = ["0.001", "0.0004", "0.3333", "1.0625", "123.456", "0.125", "2.71828", "-0.0015", "1000.001"]
+
+
+def ensure_aux(w):
+    have_p, have_f = {n for n, _ in w.preds}, {n for n, _ in w.funcs}
+    w.preds = list(w.preds) + [p for p in AUX_PREDS if p[0] not in have_p]
+    w.funcs = list(w.funcs) + [f for f in AUX_FUNCS if f[0] not in have_f]
+
+
+def separating_values(c1, c2):
+    lo, hi = sorted([float(c1), float(c2)])
+    d = max(hi - lo, 0.002)
+    return [(lo + hi) / 2 if hi > lo else lo, lo - d, hi + d, lo, hi]
+
+
+def _terms(w, scope):
+    return [v for v, _ in scope] + [c for c, _ in w.consts]
+
+
+def _zfl(rng, w, scope, must=None):
+    ts = [must] if must else _terms(w, scope)
+    if ts and (must or rng.random() < 0.7):
+        return ["fu", rng.choice(ts)]
+    return ["fz"]
+
+
+def _zlit(rng, w, scope, must=None, negate=0.4):
+    ts = _terms(w, scope)
+    if must and rng.random() < 0.7:
+        ts = [must]
+    at = ["pu", rng.choice(ts)] if ts and rng.random() < 0.7 else ["pz"]
+    return ["not", at] if rng.random() < negate else at
+
+
+def _sibling(rng, w, scope, sop, const, min_lits=0):
+    """a compound condition over the auxiliary vocabulary: (sop literal* comparison-with-const), or the same under a
+    quantifier of its own when sop is 'forall'"""
+    must = None
+    head = [sop]
+    if sop == "forall":
+        ty = rng.choice(w.all_types())
+        must = "?qz"
+        scope = list(scope) + [(must, ty)]
+        head = [rng.choice(["and", "or"])]
+    cop = rng.choice(["<=", ">=", "<", ">", "="])
+    items = [[cop, _zfl(rng, w, scope, must), const]]
+    for _ in range(max(min_lits, rng.choice([0, 1, 1, 1, 2]))):
+        lit = _zlit(rng, w, scope, must)
+        if lit not in items:
+            items.append(lit)
+    rng.shuffle(items)
+    if sop == "forall":
+        return ["forall", [must, "-", ty], head + items]
+    return head + items
+
+
+def _twin_of(rng, w, node, mode, c1, c2):
+    """the second sibling: the first one with the constant replaced by one that agrees to 2 decimals ('far'), by one
+    that does not ('near'), written again ('exact'), with its operands in the opposite order ('swapped'), with one
+    literal's polarity flipped ('flip'), or - for a quantified sibling - over another type ('qtype')"""
+    def repl(n):
+        if isinstance(n, str):
+            return c2 if n == c1 else n
+        return [repl(x) for x in n]
+
+    def body_map(n, f):
+        if n[0] == "forall":
+            return [n[0], n[1], f(n[2])]
+        return f(n)
+
+    def flip(body):
+        out, done = [body[0]], False
+        for x in body[1:]:
+            if not done and x[0] == "not" and x[1][0] in ("pu", "pz"):
+                out.append(x[1])
+                done = True
+            elif not done and x[0] in ("pu", "pz"):
+                out.append(["not", x])
+                done = True
+            else:
+                out.append(x)
+        return out
+    t = node
+    if mode in ("far", "far-swapped", "near"):
+        t = repl(t)
+    if mode in ("swapped", "far-swapped"):
+        t = body_map(t, lambda b: [b[0]] + list(reversed(b[1:])))
+    if mode == "flip":
+        t = body_map(t, flip)
+    if mode == "qtype":
+        others = [x for x in w.all_types() if x != t[1][2]]
+        if t[0] != "forall" or not others:
+            return None
+        t = [t[0], [t[1][0], "-", rng.choice(others)], t[2]]
+    return t
+
+
+TWIN_SIBLINGS = ["or", "and", "forall"]
+TWIN_CONTEXTS = ["pre-root", "pre-nested-or", "pre-nested-and", "forall-body", "when-ante", "forall-when-ante"]
+TWIN_MODES = ["far", "far-swapped", "exact", "swapped", "near", "flip", "qtype"]
+
+
+def _insert_two(rng, items, s1, s2):
+    items = list(items)
+    i = rng.randint(0, len(items))
+    items.insert(i, s1)
+    items.insert(rng.randint(i + 1, len(items)), s2)
+    return items
+
+
+def _hints(a, c1, c2, tag):
+    return {"fluents": {"fz": separating_values(c1, c2), "fu": separating_values(c1, c2)}, "facts": ["pz", "pu"],
+            "focus": a["name"], "tag": tag}
+
+
+def s_twins(rng, w, a, variant):
+    """two sibling compound conditions under one parent that are the same text up to `mode`"""
+    sop, ctx, mode = variant
+    if mode == "qtype" and (sop != "forall" or not w.types):
+        return None
+    ensure_aux(w)
+    c1, c2 = rng.choice(NEAR_PAIRS if mode == "near" else FAR_PAIRS)
+    scope = list(a["params"])
+    qv = qty = None
+    if ctx in ("forall-body", "forall-when-ante"):
+        qv, qty = ("?qy" if ctx == "forall-body" else "?uy"), rng.choice(w.all_types())
+        scope = scope + [(qv, qty)]
+    s1 = _sibling(rng, w, scope, sop, c1, min_lits=1 if mode == "flip" else 0)
+    s2 = _twin_of(rng, w, s1, mode, c1, c2)
+    if s2 is None:
+        return None
+    if rng.random() < 0.3:
+        s1, s2 = s2, s1
+    if ctx == "pre-root":
+        a["pre"] = ["and"] + _insert_two(rng, _and_body(a["pre"])[1:], s1, s2)
+    elif ctx in ("pre-nested-or", "pre-nested-and"):
+        extra = [_zlit(rng, w, scope)] if rng.random() < 0.3 else []
+        a["pre"] = _and_body(a["pre"]) + [[ctx[11:]] + _insert_two(rng, extra, s1, s2)]
+    elif ctx == "forall-body":
+        a["pre"] = _and_body(a["pre"]) + [["forall", [qv, "-", qty], [rng.choice(["and", "or"]), s1, s2]]]
+    elif ctx == "when-ante":
+        a["pre"] = ["and"]
+        res = rng.choice([["pw"], ["and", ["pw"]]])
+        a["eff"] = a["eff"] + [["when", [rng.choice(["and", "and", "or"]), s1, s2], res]]
+    else:
+        a["pre"] = ["and"]
+        res = rng.choice([["pv", qv], ["and", ["pv", qv]]])
+        a["eff"] = a["eff"] + [["forall", [qv, "-", qty], ["when", [rng.choice(["and", "and", "or"]), s1, s2], res]]]
+    return _hints(a, c1, c2, "twins:%s:%s:%s" % variant)
+
+
+LEAF_KINDS = ["num-far", "num-exact", "num-near", "lit-dup", "lit-contra", "leaf-after-compound-lit",
+              "leaf-after-compound-num", "compound-after-leaf"]
+LEAF_CONTEXTS = ["pre-root", "pre-nested-or", "forall-body", "when-ante"]
+
+
+def s_leaf_twins(rng, w, a, variant):
+    """sibling LEAVES that are near-duplicates, duplicates or contradictory; a leaf repeated after / before a sibling
+    compound condition that contains it (what a duplicate test that walks into nested conditions would drop)"""
+    kind, ctx = variant
+    ensure_aux(w)
+    c1, c2 = rng.choice(NEAR_PAIRS if kind == "num-near" else FAR_PAIRS)
+    scope = list(a["params"])
+    qv = qty = must = None
+    if ctx == "forall-body":
+        qv, qty = "?qy", rng.choice(w.all_types())
+        scope, must = scope + [(qv, qty)], qv
+    cop = rng.choice(["<=", ">=", "<", ">", "="])
+    fl = _zfl(rng, w, scope, must)
+    lit = _zlit(rng, w, scope, must, negate=0.3)
+    neg = lit[1] if lit[0] == "not" else ["not", lit]
+    if kind in ("num-far", "num-near"):
+        pair = [[cop, fl, c1], [cop, fl, c2]]
+    elif kind == "num-exact":
+        pair = [[cop, fl, c1], [cop, fl, c1]]
+    elif kind == "lit-dup":
+        pair = [lit, lit]
+    elif kind == "lit-contra":
+        pair = [lit, neg]
+    elif kind == "leaf-after-compound-lit":
+        pair = [[rng.choice(["or", "and"]), lit, [cop, fl, c1]], lit]
+    elif kind == "leaf-after-compound-num":
+        pair = [[rng.choice(["or", "and"]), lit, [cop, fl, c1]], [cop, fl, c1]]
+    else:
+        pair = [rng.choice([lit, [cop, fl, c1]]), [rng.choice(["or", "and"]), lit, [cop, fl, c1]]]
+    s1, s2 = pair
+    if ctx == "pre-root":
+        a["pre"] = ["and"] + _insert_two(rng, _and_body(a["pre"])[1:], s1, s2)
+    elif ctx == "pre-nested-or":
+        a["pre"] = _and_body(a["pre"]) + [["or", s1, s2]]
+    elif ctx == "forall-body":
+        a["pre"] = _and_body(a["pre"]) + [["forall", [qv, "-", qty], [rng.choice(["and", "or"]), s1, s2]]]
+    else:
+        a["pre"] = ["and"]
+        a["eff"] = a["eff"] + [["when", [rng.choice(["and", "or"]), s1, s2], ["pw"]]]
+    return _hints(a, c1, c2, "leaf-twins:%s:%s" % variant)
+
+
+WHEN_TWIN_KINDS = ["when", "forall-when"]
+WHEN_TWIN_MODES = ["far", "exact", "swapped", "near", "result-far"]
+
+
+def s_when_twins(rng, w, a, variant):
+    """two conditional (or universal conditional) effects whose texts are the same up to `mode`: antecedents that differ
+    in a far decimal, exact copies, operand order; or the same shape with results whose constants agree to 2 decimals"""
+    kind, mode = variant
+    ensure_aux(w)
+    c1, c2 = rng.choice(NEAR_PAIRS if mode == "near" else FAR_PAIRS)
+    scope = list(a["params"])
+    must = None
+    if kind == "forall-when":
+        must = "?uy"
+        qty = rng.choice(w.all_types())
+        scope = scope + [(must, qty)]
+    cop = rng.choice(["<=", ">=", "<", ">"])
+    fl = _zfl(rng, w, scope, must)
+    lit = _zlit(rng, w, scope, must)
+    a["pre"] = ["and"]
+    if mode == "result-far":
+        # antecedents that exclude one another, so that the two writes never meet
+        neg = lit[1] if lit[0] == "not" else ["not", lit]
+        k = rng.choice(["assign", "increase", "decrease"])
+        tgt = ["fu", must] if must else ["fz"]
+        e1, e2 = ["when", lit, [k, tgt, c1]], ["when", neg, [k, tgt, c2]]
+    else:
+        res = ["pv", must] if must else ["pw"]
+        ante1 = ["and", lit, [cop, fl, c1]] if rng.random() < 0.6 or mode == "swapped" else [cop, fl, c1]
+        ante2 = ante1
+        if mode in ("far", "near"):
+            ante2 = [cop, fl, c2] if ante1[0] != "and" else ["and", lit, [cop, fl, c2]]
+        elif mode == "swapped":
+            ante2 = ["and", [cop, fl, c1], lit]
+        e1, e2 = ["when", ante1, res], ["when", ante2, rng.choice([res, ["and", res]])]
+    if kind == "forall-when":
+        e1, e2 = ["forall", [must, "-", qty], e1], ["forall", [must, "-", qty], e2]
+    a["eff"] = ["and"] + _insert_two(rng, a["eff"][1:], e1, e2)
+    return _hints(a, c1, c2, "when-twins:%s:%s" % variant)
+
+
+def _deep(rng, w, scope, depth, used):
+    """a condition of exactly `depth` levels of and / or / forall over the auxiliary vocabulary"""
+    if depth == 0:
+        r = rng.random()
+        if r < 0.5:
+            return _zlit(rng, w, scope)
+        return [rng.choice(["<=", ">=", "<", ">", "="]), _zfl(rng, w, scope), rng.choice(["0", "1", "0.5", "2"])]
+    if rng.random() < 0.3 and len(used) < 3:
+        v = "?d%d" % len(used)
+        used.append(v)
+        ty = rng.choice(w.all_types())
+        sc = list(scope) + [(v, ty)]
+        return ["forall", [v, "-", ty], [rng.choice(["and", "or"])] +
+                [_deep(rng, w, sc, depth - 1, used)] + [_deep(rng, w, sc, rng.randint(0, depth - 1), used) for _ in range(rng.randint(0, 1))]]
+    return [rng.choice(["and", "or"])] + [_deep(rng, w, scope, depth - 1, used)] + \
+           [_deep(rng, w, scope, rng.randint(0, depth - 1), used) for _ in range(rng.randint(0, 2))]
+
+
+def s_deep(rng, w, a, variant):
+    """nesting deeper than the grammar walk goes: 3-5 levels of and / or / forall (forall inside forall included), in the
+    precondition or in a when / forall-when antecedent"""
+    depth, where = variant
+    ensure_aux(w)
+    scope = list(a["params"])
+    if where == "pre":
+        a["pre"] = _and_body(a["pre"]) + [_deep(rng, w, scope, depth, [])]
+    elif where == "when":
+        a["pre"] = ["and"]
+        c = _deep(rng, w, scope, depth, [])
+        a["eff"] = a["eff"] + [["when", c if rng.random() < 0.5 else ["and", c], ["pw"]]]
+    else:
+        a["pre"] = ["and"]
+        ty = rng.choice(w.all_types())
+        c = _deep(rng, w, scope + [("?uy", ty)], depth, [])
+        a["eff"] = a["eff"] + [["forall", ["?uy", "-", ty], ["when", c if rng.random() < 0.5 else ["and", c], ["pv", "?uy"]]]]
+    return {"fluents": {"fz": [0.5, 0.0, 1.0, 2.0], "fu": [0.5, 0.0, 1.0, 2.0]}, "facts": ["pz", "pu"], "focus": a["name"],
+            "tag": "deep:%d:%s" % variant, "random_only": True}
+
+
+def s_forall_in_when(rng, w, a, variant):
+    """a quantified condition as (part of) the antecedent of a conditional effect"""
+    where, = variant
+    ensure_aux(w)
+    ty = rng.choice(w.all_types())
+    scope = list(a["params"])
+    body = [rng.choice(["and", "or"])] + [_zlit(rng, w, scope + [("?qy", ty)], "?qy") for _ in range(rng.randint(1, 2))]
+    if rng.random() < 0.4:
+        body.append([rng.choice(["<=", ">"]), ["fu", "?qy"], rng.choice(["0.5", "1"])])
+    fa = ["forall", ["?qy", "-", ty], body]
+    a["pre"] = ["and"]
+    if where == "bare":
+        ante = fa
+    elif where == "and":
+        ante = ["and"] + _insert_two(rng, [], fa, _zlit(rng, w, scope))
+    else:
+        ante = ["or", fa, _zlit(rng, w, scope)]
+    if where == "forall-when":
+        uty = rng.choice(w.all_types())
+        a["eff"] = a["eff"] + [["forall", ["?uy", "-", uty], ["when", ["and", fa, _zlit(rng, w, scope + [("?uy", uty)], "?uy")], ["pv", "?uy"]]]]
+    else:
+        a["eff"] = a["eff"] + [["when", ante, ["pw"]]]
+    return {"fluents": {"fu": [0.5, 0.0, 1.0, 2.0]}, "facts": ["pz", "pu"], "focus": a["name"],
+            "tag": "forall-in-when:%s" % where}
+
+
+def s_const_in_range(rng, w, a, variant):
+    """a constant whose type lies in the range of a quantifier (forall condition, quantified when antecedent, forall-when
+    effect): since D30 the library's quantifiers range over the domain's constants as well as the problem's objects"""
+    where, = variant
+    ensure_aux(w)
+    ty = rng.choice(w.all_types())
+    sub = rng.choice([t for t in w.all_types() if w.is_sub(t, ty)])
+    w.consts = list(w.consts) + [("k%d" % len(w.consts), sub)]
+    scope = list(a["params"])
+    lit = ["pu", "?qy"] if rng.random() < 0.7 else ["not", ["pu", "?qy"]]
+    body = [rng.choice(["and", "or"]), lit] + ([[rng.choice(["<=", ">"]), ["fu", "?qy"], "0.5"]] if rng.random() < 0.4 else [])
+    if where == "pre":
+        a["pre"] = _and_body(a["pre"]) + [["forall", ["?qy", "-", ty], body]]
+    elif where == "when":
+        a["pre"] = ["and"]
+        a["eff"] = a["eff"] + [["when", ["forall", ["?qy", "-", ty], body], ["pw"]]]
+    else:
+        a["pre"] = ["and"]
+        a["eff"] = a["eff"] + [["forall", ["?qy", "-", ty], ["when", lit, ["pv", "?qy"]]]]
+    return {"fluents": {"fu": [0.0, 1.0]}, "facts": ["pu"], "focus": a["name"], "tag": "const-in-range:%s" % where,
+            "const_facts": "pu"}
+
+
+def s_const_first(rng, w, a, variant):
+    """a constant written BEFORE a variable in the argument list of a literal or of a function application (arity 2 and
+    3), in every place a literal can stand; the mirrored literal stands next to it so that swapped arguments show"""
+    where, = variant
+    ty = rng.choice(w.all_types())
+    if not any(c == "kc" for c, _ in w.consts):
+        w.consts = list(w.consts) + [("kc", ty)]
+    else:
+        ty = dict(w.consts)["kc"]
+    have = {n for n, _ in w.preds}
+    w.preds = list(w.preds) + [p for p in [("pb", [("?a0", "object"), ("?a1", "object")]),
+                                           ("pt", [("?a0", "object"), ("?a1", "object"), ("?a2", "object")]),
+                                           ("pw", [])] if p[0] not in have]
+    if "fb" not in {n for n, _ in w.funcs}:
+        w.funcs = list(w.funcs) + [("fb", [("?a0", "object"), ("?a1", "object")])]
+    if not a["params"]:
+        a["params"] = [("?x0", rng.choice(w.all_types()))]
+    vs = _vars(a)
+    x = rng.choice(vs)
+    y = rng.choice([v for v in vs if v != x] or [x])
+    lits = [["pb", "kc", x], ["pb", x, "kc"]] + ([["pt", "kc", x, y], ["pt", y, "kc", x]] if y != x else [])
+    if where == "pre":
+        pick = rng.choice(lits)
+        a["pre"] = _and_body(a["pre"]) + [pick if rng.random() < 0.6 else ["not", pick]]
+    elif where == "pre-num":
+        a["pre"] = _and_body(a["pre"]) + [[rng.choice(["<=", ">=", "<", ">", "="]), ["fb", "kc", x], ["fb", x, "kc"]]]
+    elif where == "eff":
+        a["pre"] = ["and"]
+        pick = rng.choice(lits)
+        a["eff"] = a["eff"] + [pick if rng.random() < 0.5 else ["not", pick]]
+    elif where == "eff-num":
+        a["pre"] = ["and"]
+        a["eff"] = a["eff"] + [[rng.choice(["assign", "increase", "decrease"]), ["fb", "kc", x], ["fb", x, "kc"]]]
+    elif where == "when-ante":
+        a["pre"] = ["and"]
+        a["eff"] = a["eff"] + [["when", rng.choice(lits), ["pw"]]]
+    else:
+        a["pre"] = ["and"]
+        a["eff"] = a["eff"] + [["when", _zlit_or_true(rng, w, a), rng.choice(lits)]]
+    return {"fluents": {}, "facts": [], "focus": a["name"], "tag": "const-first:%s" % where, "random_only": True,
+            "density": 0.5, "distinct_calls": True, "avoid_args": ["kc"]}
+
+
+def _zlit_or_true(rng, w, a):
+    ensure_aux(w)
+    return _zlit(rng, w, list(a["params"]))
+
+
+def s_wide_vocab(rng, w, a, variant):
+    """binary functions and ternary predicates with arguments in an order that is not the declaration's parameter order
+    (every permutation of the action's parameters)"""
+    where, = variant
+    have = {n for n, _ in w.preds}
+    w.preds = list(w.preds) + [p for p in [("pt", [("?a0", "object"), ("?a1", "object"), ("?a2", "object")]), ("pw", [])]
+                               if p[0] not in have]
+    if "fb" not in {n for n, _ in w.funcs}:
+        w.funcs = list(w.funcs) + [("fb", [("?a0", "object"), ("?a1", "object")])]
+    while len(a["params"]) < 3:
+        a["params"] = list(a["params"]) + [("?y%d" % len(a["params"]), rng.choice(w.all_types()))]
+    vs = _vars(a)
+    p3 = rng.sample(vs, 3)
+    p2 = rng.sample(vs, 2)
+    if where == "pre":
+        a["pre"] = _and_body(a["pre"]) + [rng.choice([["pt"] + p3, ["not", ["pt"] + p3]]),
+                                          [rng.choice(["<=", ">", "="]), ["fb"] + p2, ["fb"] + list(reversed(p2))]]
+    else:
+        a["pre"] = ["and"]
+        a["eff"] = a["eff"] + [rng.choice([["pt"] + p3, ["not", ["pt"] + p3]]),
+                               [rng.choice(["assign", "increase"]), ["fb"] + p2, ["-", ["fb"] + list(reversed(p2)), "1"]]]
+    return {"fluents": {}, "facts": [], "focus": a["name"], "tag": "wide-vocab:%s" % where, "random_only": True, "density": 0.5,
+            "calls": 4, "distinct_calls": True}
+
+
+def s_equal_operands(rng, w, a, variant):
+    """a comparison whose two operands are the same term, an arithmetic node over twice the same fluent"""
+    cop, = variant
+    ensure_aux(w)
+    scope = list(a["params"])
+    fl = _zfl(rng, w, scope)
+    form = rng.choice([[cop, fl, fl], [cop, ["+", fl, "0"], fl], [cop, ["-", fl, fl], "0"], [cop, ["*", fl, "1"], ["/", fl, "1"]]])
+    if form[0] == "=" and not isinstance(form[1], list):
+        form = ["=", fl, fl]
+    if rng.random() < 0.5:
+        a["pre"] = _and_body(a["pre"]) + [form]
+    else:
+        a["pre"] = ["and"]
+        a["eff"] = a["eff"] + [["when", form, ["pw"]]]
+    return {"fluents": {"fz": [0.5, 0.0, -1.0], "fu": [0.5, 0.0, -1.0]}, "facts": [], "focus": a["name"],
+            "tag": "equal-operands:%s" % cop}
+
+
+def s_long_numerals(rng, w, a, variant):
+    """numerals with more decimals than the library prints (DEFAULT_DIGITS = 2), in conditions and in effects: the parsed
+    number must be the written one, not a rounded one"""
+    where, = variant
+    ensure_aux(w)
+    scope = list(a["params"])
+    c = rng.choice(LONG_NUMERALS)
+    fl = _zfl(rng, w, scope)
+    if where == "pre":
+        a["pre"] = _and_body(a["pre"]) + [[rng.choice(["<=", ">=", "<", ">", "="]), fl, c]]
+    elif where == "pre-arith":
+        a["pre"] = _and_body(a["pre"]) + [[rng.choice(["<=", ">="]), fl, [rng.choice(["+", "-", "*"]), c, rng.choice(LONG_NUMERALS)]]]
+    elif where == "eff":
+        a["pre"] = ["and"]
+        a["eff"] = a["eff"] + [[rng.choice(["assign", "increase", "decrease"]), fl, c]]
+    else:
+        a["pre"] = ["and"]
+        a["eff"] = a["eff"] + [["when", [">=", fl, c], [rng.choice(["assign", "increase", "decrease"]), fl, rng.choice(LONG_NUMERALS)]]]
+    v = float(c)
+    return {"fluents": {"fz": [v, v - 0.003, v + 0.003, 0.0], "fu": [v, v - 0.003, v + 0.003, 0.0]}, "facts": [],
+            "focus": a["name"], "tag": "long-numerals:%s" % where}
+
+
+def s_shadow(rng, w, a, variant):
+    """a quantified variable that has the name of an action parameter (the inner binding wins), an empty conjunction /
+    disjunction / quantified body as a condition"""
+    kind, = variant
+    ensure_aux(w)
+    if not a["params"]:
+        a["params"] = [("?x0", rng.choice(w.all_types()))]
+    x = _vars(a)[0]
+    ty = rng.choice(w.all_types())
+    scope = list(a["params"])
+    if kind == "shadow-pre":
+        a["pre"] = _and_body(a["pre"]) + [["forall", [x, "-", ty], [rng.choice(["and", "or"]), ["pu", x]]]]
+    elif kind == "shadow-forall-when":
+        a["pre"] = ["and"]
+        a["eff"] = a["eff"] + [["forall", [x, "-", ty], ["when", ["pu", x], ["pv", x]]]]
+    elif kind == "empty-and":
+        a["pre"] = _and_body(a["pre"]) + [["and"]]
+    elif kind == "empty-or":
+        a["pre"] = _and_body(a["pre"]) + [rng.choice([["or"], ["or", ["or"], _zlit(rng, w, scope)]])]
+    elif kind == "empty-forall":
+        a["pre"] = _and_body(a["pre"]) + [["forall", ["?qy", "-", ty], [rng.choice(["and", "or"])]]]
+    else:
+        a["pre"] = ["and"]
+        a["eff"] = a["eff"] + [["when", rng.choice([["and"], ["or"], ["and", ["and"]]]), ["pw"]]]
+    return {"fluents": {}, "facts": ["pu", "pz"], "focus": a["name"], "tag": "scoping:%s" % kind}
+
+
+SHAPES = {}
+for _sop in TWIN_SIBLINGS:
+    for _ctx in TWIN_CONTEXTS:
+        for _mode in TWIN_MODES:
+            if _mode == "qtype" and _sop != "forall":
+                continue
+            SHAPES["twins:%s:%s:%s" % (_sop, _ctx, _mode)] = (s_twins, (_sop, _ctx, _mode))
+for _k in LEAF_KINDS:
+    for _ctx in LEAF_CONTEXTS:
+        SHAPES["leaf-twins:%s:%s" % (_k, _ctx)] = (s_leaf_twins, (_k, _ctx))
+for _k in WHEN_TWIN_KINDS:
+    for _mode in WHEN_TWIN_MODES:
+        SHAPES["when-twins:%s:%s" % (_k, _mode)] = (s_when_twins, (_k, _mode))
+for _d in (3, 4, 5):
+    for _where in ("pre", "when", "forall-when"):
+        SHAPES["deep:%d:%s" % (_d, _where)] = (s_deep, (_d, _where))
+for _where in ("bare", "and", "or", "forall-when"):
+    SHAPES["forall-in-when:%s" % _where] = (s_forall_in_when, (_where,))
+for _where in ("pre", "when", "forall-when"):
+    SHAPES["const-in-range:%s" % _where] = (s_const_in_range, (_where,))
+for _where in ("pre", "pre-num", "eff", "eff-num", "when-ante", "when-result"):
+    SHAPES["const-first:%s" % _where] = (s_const_first, (_where,))
+for _where in ("pre", "eff"):
+    SHAPES["wide-vocab:%s" % _where] = (s_wide_vocab, (_where,))
+for _cop in ("<=", ">=", "<", ">", "="):
+    SHAPES["equal-operands:%s" % _cop] = (s_equal_operands, (_cop,))
+for _where in ("pre", "pre-arith", "eff", "when"):
+    SHAPES["long-numerals:%s" % _where] = (s_long_numerals, (_where,))
+for _k in ("shadow-pre", "shadow-forall-when", "empty-and", "empty-or", "empty-forall", "empty-when"):
+    SHAPES["scoping:%s" % _k] = (s_shadow, (_k,))
+
+
+def shape(rng, w, key):
+    """applies the shape `key` to one action of w; returns the probe hints, or None when it does not fit this world"""
+    fn, variant = SHAPES[key]
+    a = rng.choice(w.actions)
+    h = fn(rng, w, a, variant)
+    if h is not None:
+        w.features.add("shape:" + key.split(":")[0])
+    return h
+
+
+def hinted_state(rng, w, objs, hints, k):
+    """probe state number k of a hinted world (see SHAPES)"""
+    st = G.gen_state(rng, w, objs, density=hints.get("density"))
+    if hints.get("distinct_calls"):
+        st["fluents"] = [x for x in st["fluents"] if len(set(x[1])) == len(x[1])]
+    if hints.get("random_only"):
+        for i, (f, args, v) in enumerate(st["fluents"]):
+            if f in hints["fluents"]:
+                st["fluents"][i] = (f, args, rng.choice(hints["fluents"][f]))
+        return st
+    named = set(hints["facts"])
+    if k == 0:
+        st["facts"] = [x for x in st["facts"] if x[0] not in named]
+    elif k == 1:
+        keep = [x for x in st["facts"] if x[0] not in named]
+        st["facts"] = keep + [x for x in G.ground_atoms(w, objs, [p for p in w.preds if p[0] in named])]
+    fl = []
+    for f, args, v in st["fluents"]:
+        vals = hints["fluents"].get(f)
+        if vals:
+            v = vals[0] if k < 2 else rng.choice(vals)
+        fl.append((f, args, v))
+    st["fluents"] = fl
+    cf = hints.get("const_facts")
+    if cf and k < 2:
+        # the named predicate holds of every object and of no constant (k = 0), or the other way round (k = 1)
+        consts = {c for c, _ in w.consts}
+        st["facts"] = [x for x in st["facts"] if x[0] != cf] + \
+                      [x for x in G.ground_atoms(w, objs, [p for p in w.preds if p[0] == cf])
+                       if (x[1][0] in consts) == (k == 1)]
+    return st
+
+
+def render2(t, rng, depth=0):
+    """token tree -> text with stronger layout noise than pddlgen.render: mixed letter case (keywords, names and variables),
+    comments that contain parentheses and keywords, comments before the first and after the last parenthesis, blank
+    lines, tabs, CR LF line ends, no blank where none is needed ('(and(p ?x)(q))')"""
+    if isinstance(t, str):
+        r = rng.random()
+        if r < 0.2:
+            return t.upper()
+        if r < 0.3:
+            return t.capitalize()
+        if r < 0.36:
+            return "".join(ch.upper() if rng.random() < 0.5 else ch for ch in t)
+        return t
+    parts = [render2(x, rng, depth + 1) for x in t]
+    seps = [" ", " ", " ", " ", "\n", "\t", "  ", "\r\n", " ; (and (not\n", " ;; ) ( \n", "\n; whole line (:action x)\n", " ;\n", "\n\n"]
+    out = "("
+    for i, p in enumerate(parts):
+        if i == 0:
+            lead = rng.choice(["", "", "", " ", "\n "])
+        elif (parts[i - 1].endswith(")") or p.startswith("(")) and rng.random() < 0.3:
+            lead = ""
+        else:
+            lead = rng.choice(seps)
+        out += lead + p
+    out += rng.choice(["", "", "", " ", "\n", " ; )\n"]) + ")"
+    if depth == 0:
+        out = rng.choice(["", "; header (define\n", "\n\n", ";;; a ; b\n  "]) + out + rng.choice(["", "\n", "\n; trailer )\n", "  ; end"])
+    return out
+
+
 def typed2(rng, pairs, allow_untyped_tail=True):
     """a typed list written the way people write it: runs of one type grouped ('?x ?y - t'), a tail of type object
     left untyped ('?z')"""
